@@ -39,10 +39,10 @@ def forecasters():
 
     L = []
 
-    def add(name, f, mode="opt", refit=True, cost="fast"):
-        L.append({"name": name, "factory": f, "mode": mode, "refit": refit, "cost": cost})
+    def add(name, f, mode="opt", refit=True, cost="fast", closed=None):
+        L.append({"name": name, "factory": f, "mode": mode, "refit": refit, "cost": cost, "closed": closed})
 
-    add("naive_last", lambda: NaiveForecaster("last"))
+    add("naive_last", lambda: NaiveForecaster("last"), closed="last")
     add("naive_mean", lambda: NaiveForecaster("mean"))
     add("naive_mean_w3", lambda: NaiveForecaster("mean", window_length=3))
     add("naive_drift", lambda: NaiveForecaster("drift"))
